@@ -132,7 +132,7 @@ Theorem C17_priority : forall k cur a r,
   conv_maxnb (prio (a_maxnb a) s_maxnb sp d_maxnb) = Ok (r_kw_maxnb r) /\
   (forall n, njobs_arg a = Some n -> r_njobs r = n) /\
   (njobs_arg a = None -> forced a cur = false ->
-     r_njobs r = match innermost s_njobs sp with Some (Some n) => n | _ => 1 end) /\
+     r_njobs r = match innermost s_njobs sp with Some (Some n) => n | _ => default_n_jobs (r_kind r) end) /\
   (forall kd l, a_backend a = Some (BInst kd l) -> r_kind r = kd) /\
   (a_backend a = None -> forced a cur = false ->
      r_kind r = match innermost spec_kind sp with Some kd => kd | None => BLoky end).
@@ -247,6 +247,35 @@ Theorem C17_backend_object_kwargs : forall obj call,
   (call = None -> src_mp_pool_kwarg obj call = obj /\ src_loky_executor_kwarg obj call = obj).
 Proof. exact pool_kwarg_merge_spec. Qed.
 Print Assumptions C17_backend_object_kwargs.
+
+(* WHOSE DEFAULT.  When neither the call nor any enclosing context gives n_jobs, Parallel.__init__ reads default_n_jobs of the
+   backend the call REALLY uses (regenerated fact), which is what [parallel_init] models and C17_priority states
+   (`default_n_jobs (r_kind r)`): a context backend whose default is -1 does not leak its default into a call that names
+   another backend. *)
+Theorem C17_default_njobs_of_used_backend : forall a c r,
+  default_njobs_of_used_backend = true /\
+  (parallel_init_src BLoky a c = Ok r -> njobs_arg a = None -> forced a c = false -> c_njobs c = None ->
+   r_njobs r = default_n_jobs (r_kind r)).
+Proof.
+  intros a c r. split; [reflexivity|]. rewrite parallel_init_src_eq. intros H Ha Hf Hc.
+  destruct (parallel_init_inv a c r H) as (_ & _ & _ & _ & _ & _ & _ & _ & _ & _ & Hn & _). rewrite (Hn Ha Hf), Hc. reflexivity.
+Qed.
+Print Assumptions C17_default_njobs_of_used_backend.
+
+(* NESTED n_jobs.  The n_jobs a backend asks for nested calls (second component of get_nested_backend()) reaches the worker's
+   context unchanged whether the batch travels through pickle (process workers) or not (threads): regenerated fact
+   reduce_keeps_njobs *)
+Theorem C17_nested_njobs_survives_pickling : forall pickled n,
+  batch_njobs_in_worker reduce_keeps_njobs pickled n = n.
+Proof. exact batch_njobs_same. Qed.
+Print Assumptions C17_nested_njobs_survives_pickling.
+
+(* EXPLICIT MEANS PASSED, NOT TRUTHY.  LokyBackend.configure (regenerated): the idle-worker timeout the executor is built with is
+   the value passed by the call -- 0 included --, else the backend object's, else 300 *)
+Theorem C17_idle_worker_timeout_priority : forall call obj,
+  src_idle_worker_timeout call obj = Ok (gcp call obj 300) /\ src_idle_worker_timeout (Some 0) obj = Ok 0.
+Proof. intros. split; [apply idle_timeout_priority | rewrite idle_timeout_priority; reflexivity]. Qed.
+Print Assumptions C17_idle_worker_timeout_priority.
 
 (* THE SETTINGS OF AN OBJECT ARE CONSTANT OVER ITS LIFE.  For every backend class and every history of __enter__ / successful
    calls / failed calls / __exit__ on one Parallel object: every configure the backend receives carries the record resolved by
